@@ -76,7 +76,8 @@ def ops_for(nslots):
             ('new', i, None), ('new-attrs', i, None),
             ('parse', i, 0), ('parse', i, 1), ('parse', i, 2),
             ('parse', i, 3), ('mut-unknown-options', i, None),
-            ('mut-meta-intkeys', i, None), ('copy-sections', i, None),
+            ('mut-meta-intkeys', i, None), ('mut-meta-foreign', i, None),
+            ('copy-sections', i, None),
             ('add-change', i, None), ('add-change-attrs', i, None),
             ('add-file', i, None), ('add-file-big', i, None),
             ('mut-meta', i, None), ('mut-meta-nested', i, None),
@@ -93,6 +94,21 @@ def ops_for(nslots):
             if i != j:
                 ops.append(('eq', i, j))
     return ops
+
+
+class PathLikeValue(object):
+    """os.PathLike without caches (pathlib objects memoise str / hash)."""
+    def __init__(self, p):
+        self.p = p
+
+    def __fspath__(self):
+        return self.p
+
+    def __eq__(self, other):
+        return type(other) is PathLikeValue and other.p == self.p
+
+    def __hash__(self):
+        return hash(self.p)
 
 
 OBSERVERS = {'to-bytes', 'write-shared', 'repr', 'iterate', 'eq',
@@ -186,6 +202,18 @@ def apply(world, op):
             except Exception:
                 pass
         return ('copied', len(targets))
+    elif name == 'mut-meta-foreign':
+        # values of types JSON does not know (a path object, a decimal, a
+        # date, a set, bytes): serialising such a tree may fail, but whether
+        # it fails or not the tree keeps the caller's objects
+        import datetime
+        import decimal
+        t.meta['p'] = {'path': PathLikeValue('a/b'),
+                       'l': [PathLikeValue('c'), decimal.Decimal('1.5')]}
+        if _last_file(t) is not None:
+            _last_file(t).meta['when'] = datetime.date(2021, 6, 1)
+            _last_file(t).meta['tags'] = {'x'}
+            _last_file(t).meta['raw'] = b'bytes'
     elif name == 'mut-meta-intkeys':
         # keys json writes as strings ("1", "2.5"): whatever serialising
         # does with them, the tree keeps the caller's objects
